@@ -202,6 +202,8 @@ func (c *Check) RangeLoop(fn *ssa.Function, name string, over VM) *Loop {
 		var k, n int
 		fmt.Sscanf(name[strings.Index(name, "#"):], "#%d/%d", &k, &n)
 		if len(found) == n && k >= 1 && k <= n {
+			found[k-1].Name = name
+			c.loopVisitsAll(fn, found[k-1])
 			return found[k-1]
 		}
 		c.Undecided("anchor", shortName(fn)+"|loop:"+name, fmt.Sprintf("exactly %d range loops over the named operand", n), fmt.Sprintf("found %d", len(found)), c.W.Pos(fn.Pos()))
@@ -211,6 +213,7 @@ func (c *Check) RangeLoop(fn *ssa.Function, name string, over VM) *Loop {
 		c.Undecided("anchor", shortName(fn)+"|loop:"+name, "exactly one range loop over the named operand", fmt.Sprintf("found %d", len(found)), c.W.Pos(fn.Pos()))
 		return nil
 	}
+	c.loopVisitsAll(fn, found[0])
 	return found[0]
 }
 
@@ -236,6 +239,7 @@ func (c *Check) ForLoop(fn *ssa.Function, name string, cond VM) *Loop {
 		c.Undecided("anchor", shortName(fn)+"|loop:"+name, "exactly one for loop with the named condition", fmt.Sprintf("found %d", len(found)), c.W.Pos(fn.Pos()))
 		return nil
 	}
+	c.loopVisitsAll(fn, found[0])
 	return found[0]
 }
 
@@ -457,6 +461,7 @@ func (c *Check) ForOrRangeLoopWithCall(fn *ssa.Function, name, callee string) *L
 			best = l
 		}
 	}
+	c.loopVisitsAll(fn, best)
 	return best
 }
 
